@@ -326,7 +326,9 @@ def streamOp (E : Env α β) (hasG2 full : Bool) (args : List String) : String :
       let b := encodeSeq E (raw == "1") vs
       toHex b.length ++ " " ++ bytesToHex b
   | ["sdec", sub, _chunk, tys, hex] =>
-    match (tys.splitOn ",").mapM (parseTy hasG2 full) with
+    -- a type token `ty@slot` names the destination VARIABLE the harness decodes into (tokens with the same text share
+    -- one variable along the calls made on ONE Decoder); by value a call's answer does not depend on it
+    match (tys.splitOn ",").mapM (fun t => parseTy hasG2 full ((t.splitOn "@").headD t)) with
     | none => "bad-op"
     | some ts =>
       -- a history `hexA>hexB>…`: every stream is decoded into the same destination variables; by value, the
